@@ -61,7 +61,8 @@ def words(vendor, tier):
         L3 = ["pass", "end-policy x"]
     if vendor in ("juniper", "ribbon", "nokia"):
         L1 = ["interfaces", "protocols bgp", "system host-name x"]
-        L2 = ["group TOR", "inactive: neighbor fe80::1", "description x"]
+        # a row whose later words start with "##" (Nokia's end-of-line comment mark is " ##" in device output only)
+        L2 = ["description ## x ##", "group TOR", "inactive: neighbor fe80::1"]
         L3 = ["peer-as 65000.1", "family inet"]
         L4 = ["unicast", "delete x"]
     if vendor == "routeros":
